@@ -25,20 +25,29 @@ class TypeFacts:
         digest = repo.digest()[:24]
         CACHE.mkdir(exist_ok=True)
         path = CACHE / f"facts-{digest}.json"
-        if not path.exists():
+        data = None
+        if path.exists():
+            try:
+                data = json.loads(path.read_text())  # another run may prune the file between the test and the read
+            except (OSError, ValueError):
+                data = None
+        if data is None:
             tmp = CACHE / f"facts-{digest}.{os.getpid()}.tmp"
             cp = subprocess.run([sys.executable, str(HERE / "mypy_dump.py"), str(repo.root), str(tmp)],
                                 capture_output=True, text=True)
             if cp.returncode != 0 or not tmp.exists():
                 raise AnalysisError("mypy fact extraction failed: " + (cp.stderr or cp.stdout)[-400:])
+            data = json.loads(tmp.read_text())
             os.replace(tmp, path)
-            olds = sorted((o for o in CACHE.glob("facts-*.json") if o != path), key=lambda o: o.stat().st_mtime, reverse=True)
-            for old in olds[6:]:  # keep a few recent digests (seed / self-test runs alternate between trees)
+            try:
+                olds = sorted((o for o in CACHE.glob("facts-*.json") if o != path), key=lambda o: o.stat().st_mtime, reverse=True)
+            except OSError:
+                olds = []
+            for old in olds[24:]:  # keep recent digests (seed / self-test runs alternate between many trees, in parallel)
                 try:
                     old.unlink()
                 except OSError:
                     pass
-        data = json.loads(path.read_text())
         self.classes: dict[str, list[str]] = data["classes"]
         self.calls: dict[tuple, tuple] = {}
         self.types: dict[tuple, str] = {}
